@@ -853,6 +853,8 @@ void JitAllocator::reset(ResetPolicy reset_policy) noexcept {
       if (block_to_keep) {
         block_to_keep->_list_nodes[0] = nullptr;
         block_to_keep->_list_nodes[1] = nullptr;
+        block_to_keep->_tree_nodes[0] = 0;
+        block_to_keep->_tree_nodes[1] = 0;
         JitAllocatorImpl_wipeOutBlock(impl, block_to_keep);
         JitAllocatorImpl_insertBlock(impl, block_to_keep);
         pool.empty_block_count = 1;
